@@ -24,22 +24,33 @@ func HServerOptions() {
 	o.am_sender = b2i(push)
 	o.dry_run = b2i(nd_bool())
 	o.preserve_links = b2i(nd_bool())
+	lite := vparam("lite") == 1 // quick tier: some options vary together
 	o.preserve_uid = b2i(nd_bool())
-	o.preserve_gid = b2i(nd_bool())
+	if lite {
+		o.preserve_gid = o.preserve_uid
+	} else {
+		o.preserve_gid = b2i(nd_bool())
+	}
 	o.preserve_devices = b2i(nd_bool())
 	o.preserve_specials = o.preserve_devices
 	if vparam("split") == 1 {
 		o.preserve_specials = b2i(nd_bool())
 	}
 	o.preserve_mtimes = b2i(nd_bool())
-	o.preserve_perms = b2i(nd_bool())
+	if lite {
+		o.preserve_perms = o.preserve_mtimes
+	} else {
+		o.preserve_perms = b2i(nd_bool())
+	}
 	o.recurse = b2i(nd_bool())
 	if o.recurse != 0 {
 		o.xfer_dirs = 1
 	}
 	o.always_checksum = b2i(nd_bool())
 	o.ignore_times = b2i(nd_bool())
-	o.update_only = b2i(nd_bool())
+	if !lite {
+		o.update_only = b2i(nd_bool())
+	}
 	if vparam("delete") == 1 {
 		o.delete_mode = b2i(nd_bool())
 	}
